@@ -2,6 +2,9 @@ package main
 
 import (
 	"bytes"
+	"go/ast"
+	"go/parser"
+	"go/token"
 	"strconv"
 
 	"verifsim/idlgen"
@@ -84,6 +87,13 @@ func buildFor(p *prop) (*buildInfo, error) {
 		}
 		extra = ex
 	}
+	if ex, err := generateMsgIDShim(bdir); err != nil {
+		return nil, err
+	} else if extra == "" {
+		extra = ex
+	} else {
+		extra += "," + ex
+	}
 	var lastOut string
 	for _, mode := range []string{"full", "noselect", "synconly"} {
 		args := []string{"-out", bdir, "-repo", repoDir, "-simdir", simDir(), "-shims", filepath.Join(simDir(), "shims")}
@@ -110,6 +120,63 @@ func buildFor(p *prop) (*buildInfo, error) {
 		fmt.Fprintf(os.Stderr, "vsim: build in mode %q failed, trying a weaker instrumentation\n", mode)
 	}
 	return nil, fmt.Errorf("harness does not build against %s:\n%s", repoDir, lastOut)
+}
+
+// generateMsgIDShim writes the accessor the scenarios use to move the request-id counter
+// next to its wrap-around. Where the counter lives is an implementation detail of the
+// tree under test (a package variable today), so the accessor is generated from what the
+// tree declares instead of being a fixed shim that would stop building when it moves.
+func generateMsgIDShim(bdir string) (string, error) {
+	dir := filepath.Join(repoDir, "tars")
+	fset := token.NewFileSet()
+	pkgs, err := parser.ParseDir(fset, dir, func(fi os.FileInfo) bool { return !strings.HasSuffix(fi.Name(), "_test.go") }, 0)
+	if err != nil {
+		return "", fmt.Errorf("parsing %s: %v", dir, err)
+	}
+	global, field := false, false
+	for _, pkg := range pkgs {
+		for _, f := range pkg.Files {
+			for _, d := range f.Decls {
+				g, ok := d.(*ast.GenDecl)
+				if !ok {
+					continue
+				}
+				for _, sp := range g.Specs {
+					switch t := sp.(type) {
+					case *ast.ValueSpec:
+						for _, n := range t.Names {
+							if g.Tok == token.VAR && n.Name == "msgID" {
+								global = true
+							}
+						}
+					case *ast.TypeSpec:
+						if st, ok := t.Type.(*ast.StructType); ok && t.Name.Name == "ServantProxy" {
+							for _, fl := range st.Fields.List {
+								for _, n := range fl.Names {
+									if n.Name == "msgID" {
+										field = true
+									}
+								}
+							}
+						}
+					}
+				}
+			}
+		}
+	}
+	body := "\treturn false\n"
+	switch {
+	case global:
+		body = "\tatomic.StoreInt32(&msgID, v)\n\treturn true\n"
+	case field:
+		body = "\tfor _, p := range proxies {\n\t\tatomic.StoreInt32(&p.msgID, v)\n\t}\n\treturn len(proxies) > 0\n"
+	}
+	src := "package tars\n\nimport \"sync/atomic\"\n\nvar _ = atomic.StoreInt32\n\n// VerifSetMsgID presets the request id counter (process-wide, or of the given proxies when the\n// tree keeps one per proxy); false when the tree has no counter this accessor knows how to reach.\nfunc VerifSetMsgID(v int32, proxies ...*ServantProxy) bool {\n" + body + "}\n"
+	out := filepath.Join(bdir, "zz_verif_msgid.go")
+	if err := os.WriteFile(out, []byte(src), 0644); err != nil {
+		return "", err
+	}
+	return filepath.Join(dir, "zz_verif_msgid.go") + "=" + out, nil
 }
 
 // generateIDL builds tars2go from the working tree and runs it on the harness
